@@ -1095,11 +1095,20 @@ MANIFEST_ENTRY = {
              'view, out=, in-place methods, helpers that write into their argument). The Lean driver executes the effect lists translated '
              'from the current source (sent over the wire), the hand table only in addition when they differ. Operations exercised on the '
              'real object include exact_xy / exact_x (interpolated value at a grid node = the data there), pvr, slices, copy, psd (read-only: '
-             'data bit-identical), pad(value, shape=) with a block-placement predicate, maps with +-inf, dx = 0.'),
+             'data bit-identical), pad(value, shape=) with a block-placement predicate, maps with +-inf, dx = 0. Session 3: the WHOLE of crop is '
+             'translated (`crop.margins`: which axis `any` reduces, forward / reversed argmax, the early-return test, the validity test; with '
+             '`crop.slices`) and `crop_source_is_cropBox` proves that the translated crop computes the model\'s bounding box for every validity matrix of '
+             'every shape (so keeps-valid / window / idempotent are statements about the source\'s crop); translated and proved: which util '
+             'statistic each reported property hands self.data to (`gen_stats_delegation`), the shape pad() asks pad2d for (`gen_pad_shape`), '
+             'cart_to_polar = (hypot(x, y), arctan2(y, x)) (`gen_polar_transform`). Least squares for ANY number of columns and any removed '
+             'subset: the zeroed coefficient vector solves the normal equations of the re-fit (`ls_removal_residual_solves`, no rank assumption), every '
+             're-fit finds 0 when the columns are independent (`ls_removal_idempotent`), and when ALL columns are removed (tilt) zero is the minimum-norm '
+             'solution for EVERY rank (`tilt_removal_idempotent_any_rank`; checked on the real code on single-row / single-column / one-sample maps). '
+             'Degenerate extents (1x1, 1xN, Nx1, 2-sample axes) run through every operation.'),
     'note': ('partial: the effect lists abstract array contents to affine grids (shape, origin, spacing) — that the NumPy '
              'statements have those effects is translated syntactically and validated by the history correspondence, not proved; '
-             '`filter` values, pvr values and plotting are not modelled; make_xy_grid / cart_to_polar / lstsq bodies are compared, not translated; validity preservation is proved for finite subtracted terms only; np.linalg.lstsq is trusted to return the normal-equation '
-             'solution (idempotence is not claimed for rank-deficient designs such as a single valid sample); NaN propagation '
+             '`filter` values, pvr values and plotting are not modelled; make_xy_grid (translated by C04) / lstsq bodies are compared, not translated here; validity preservation is proved for finite subtracted terms only; np.linalg.lstsq is trusted to return the normal-equation '
+             'solution / the minimum-norm one (power-removal idempotence is not claimed for rank-deficient designs — it is false there, e.g. all valid samples on one circle; tilt is proved for every rank); NaN propagation '
              'through FFT (filter after mask) is observed, not modelled. Trusted: Lean kernel + standard axioms, the ast->effect '
              'translator, NumPy semantics, float tolerances 1e-9.'),
 }
